@@ -4,6 +4,7 @@ mod p_coo;
 mod p_dict;
 mod p_bpetrain;
 mod p_edit;
+mod p_loader;
 mod p_editword;
 mod p_multigen;
 mod p_pipe;
@@ -28,6 +29,7 @@ fn component(name: &str) -> (ExecFn, GenFn) {
     match name {
         "edit" => (p_edit::exec, p_edit::gen),
         "pipe" => (p_pipe::exec, p_pipe::gen),
+        "loader" => (p_loader::exec, p_loader::gen),
         "coo" => (p_coo::exec, p_coo::gen),
         "dict" => (p_dict::exec, p_dict::gen),
         "match" => (p_words::exec_match, p_words::gen_match),
